@@ -43,7 +43,18 @@ def obsNums (obs : List (List String)) (w : String) : List (List Nat) :=
 
 /-! ## model replay -/
 
+/-- a block replayed at size level (`balloc` / `brealloc` / `bfree`): only its edges are ever looked at -/
+structure BigBlk where
+  id      : Nat
+  size    : Nat
+  seed    : Nat
+  fam     : Nat
+  sep     : Bool
+  nodeId  : Nat
+  guardOk : Bool      -- the guard bytes were put right behind the user bytes (and so survive the client's writes)
+
 structure DState where
+  big      : List BigBlk := []
   cfg      : Cfg := defaultCfg
   det      : State := {}
   glob     : State := {}
@@ -120,7 +131,7 @@ def modelAlloc (d : DState) (obs : List (List String)) (fam size seed : String) 
       let (s2, wl) := match out with
         | .ptr id => userWrite s1 id sd 0 n
         | _ => (s1, [])
-      ({ d with det := s2 }, evs.flatMap (renderEv false false) ++ renderOutcome out ++ wl ++ [s!"total {s2.tracked.length}"])
+      ({ d with det := s2 }, evs.flatMap (renderEv false false) ++ renderOutcome out ++ wl ++ [s!"total {s2.tracked.length + d.big.length}"])
     | none => (d, ["bad-op"])
   | _, _, _ => (d, ["bad-op"])
 
@@ -143,7 +154,7 @@ def modelRealloc (d : DState) (obs : List (List String)) (fam old size seed : St
       let pf := (obsNums obs "platform-freed").filterMap List.head?
       let s3 := { s2 with mem := pf.foldl dropBlock s2.mem }
       ({ d with det := s3 }, (evs.flatMap (renderEv false false)).flatMap (fun l => if l.startsWith "urealloc" then l :: pf.map (fun i => s!"platform-freed {i}") else [l])
-         ++ renderOutcome out ++ wl ++ [s!"total {s3.tracked.length}"])
+         ++ renderOutcome out ++ wl ++ [s!"total {s3.tracked.length + d.big.length}"])
     | none => (d, ["bad-op"])
   | _, _, _, _ => (d, ["bad-op"])
 
@@ -154,9 +165,115 @@ def modelFree (d : DState) (fam id : String) (sepw : Option String) : DState × 
     | some sep =>
       let (s1, evs, out) := releaseGen d.cfg d.det f (some i) sep
       let ubl := match out with | .ub why => [s!"ub {why}"] | _ => []
-      ({ d with det := s1 }, evs.flatMap (renderEv false false) ++ ubl ++ [s!"total {s1.tracked.length}"])
+      ({ d with det := s1 }, evs.flatMap (renderEv false false) ++ ubl ++ [s!"total {s1.tracked.length + d.big.length}"])
     | none => (d, ["bad-op"])
   | _, _ => (d, ["bad-op"])
+
+/-! ### blocks replayed at size level (`Plan` of the model): requests of 2^32 bytes and more -/
+
+def edgeLen : Nat := 32
+
+def edgeLine (name : String) (bs : List UInt8) : String :=
+  s!"{name} {bs.length} {if bs.isEmpty then "-" else Proto.hex bs}"
+
+/-- the harness' pattern in the window `lo..hi`, at most `edgeLen` bytes -/
+def patWin (seed lo hi : Nat) : List UInt8 := patRange seed lo (min hi (lo + edgeLen))
+
+def bigTotal (d : DState) (big : List BigBlk) : String := s!"total {d.det.tracked.length + big.length}"
+
+def idOf2 (l : Option (List Nat)) : Nat := match l with | some [_, i] => i | _ => 0
+def idOf3 (l : Option (List Nat)) : Nat := match l with | some [_, _, i] => i | _ => 0
+
+/-- what lies right behind the user bytes, as the plan puts the guard bytes -/
+def behindLine (c : Cfg) (p : Plan) (n : Nat) : String :=
+  if c.guard.toNat == 0 then "behind 0 -"
+  else if p.guardOff == n then edgeLine "behind" (guardImage c)
+  else s!"behind {c.guard.toNat} ?"
+
+/-- the bookkeeping writes of `storeLeakInformation` stay inside the block -/
+def planFits (c : Cfg) (p : Plan) : Bool :=
+  p.guardOff + c.guard.toNat ≤ p.req.toNat && (match p.nodeAt with | some o => o + c.node.toNat ≤ p.req.toNat | none => true)
+
+def bigSuccess (d : DState) (p : Plan) (evs : List String) (rest : List BigBlk) (f id nid n sd : Nat) (pre : List String) :
+    DState × List String :=
+  if !planFits d.cfg p then (d, evs ++ ["ub bookkeeping written outside the block"])
+  else
+    let b : BigBlk := ⟨id, n, sd, f, p.nodeAt.isNone, nid, p.guardOff == n⟩
+    let big := b :: rest
+    ({ d with big := big }, evs ++ [s!"ret {id} 0", "align 0"] ++ pre ++ [behindLine d.cfg p n, "wrote-edges", bigTotal d big])
+
+def modelBAlloc (d : DState) (obs : List (List String)) (fam size seed sepw : String) : DState × List String :=
+  let c := d.cfg
+  match famOf fam, size.toNat?, seed.toNat?, sepWord 0 (some sepw) with
+  | some f, some n, some sd, some sep0 =>
+    match allocPlan c (W.of n) sep0 with
+    | none => (d, ["ret null", bigTotal d d.big])
+    | some p =>
+      let id := idOf2 (obsNums obs "ualloc").head?
+      let l1 := [s!"ualloc {p.req.toNat} {id}"]
+      if id == 0 then (d, l1 ++ ["ret null", bigTotal d d.big])
+      else if p.nodeAt.isNone then
+        let nid := idOf2 (obsNums obs "unode").head?
+        if nid == 0 then (d, l1 ++ [s!"unode {c.node.toNat} 0", s!"ufree {id}", "ret null", bigTotal d d.big])
+        else bigSuccess d p (l1 ++ [s!"unode {c.node.toNat} {nid}"]) d.big f id nid n sd []
+      else bigSuccess d p l1 d.big f id 0 n sd []
+  | _, _, _, _ => (d, ["bad-op"])
+
+def modelBRealloc (d : DState) (obs : List (List String)) (fam old size seed sepw : String) : DState × List String :=
+  let c := d.cfg
+  match famOf fam, old.toNat?, size.toNat?, seed.toNat?, sepWord 0 (some sepw) with
+  | some f, some o, some n, some sd, some sep0 =>
+    match reallocPlan c (W.of n) sep0 with
+    | none => (d, ["ret null", bigTotal d d.big])
+    | some p =>
+      let oldB := if o == 0 then none else d.big.find? (·.id == o)
+      if o != 0 && oldB.isNone then (d, ["misuse nonallocated", "ret null", bigTotal d d.big])
+      else
+        let rest := d.big.filter (·.id != o)
+        -- checkForCorruption of the old record
+        let chk : List String := match oldB with
+          | none => []
+          | some b => if b.fam != f then ["misuse mismatch"] else if !b.guardOk then ["misuse corruption"]
+                      else if p.nodeAt.isNone && b.sep then [s!"unodefree {b.nodeId}"] else []
+        let id := idOf3 (obsNums obs "urealloc").head?
+        let l1 := chk ++ [s!"urealloc {o} {p.req.toNat} {id}"]
+        let nid := idOf2 (obsNums obs "unode").head?
+        if id == 0 then
+          match oldB with
+          | none => (d, l1 ++ ["ret null", bigTotal d d.big])
+          | some b =>
+            if p.nodeAt.isNone then
+              if nid == 0 then (d, l1 ++ [s!"unode {c.node.toNat} 0", "ub node allocation returned NULL, dereferenced"])
+              else
+                let big := { b with sep := true, nodeId := nid } :: rest
+                ({ d with big := big }, l1 ++ [s!"unode {c.node.toNat} {nid}", "ret null", bigTotal d big])
+            else
+              let big := { b with sep := false, nodeId := 0 } :: rest
+              ({ d with big := big }, l1 ++ ["ret null", bigTotal d big])
+        else
+          let oldSize := (oldB.map (·.size)).getD 0
+          let oldSeed := (oldB.map (·.seed)).getD 0
+          let keep := min oldSize n
+          let pre := [edgeLine "head" (patWin oldSeed 0 keep)] ++
+            (if o != 0 && n ≥ oldSize then [edgeLine "tail" (patWin oldSeed (oldSize - edgeLen) oldSize)] else [])
+          if p.nodeAt.isNone then
+            if nid == 0 then (d, l1 ++ [s!"unode {c.node.toNat} 0", "ub node allocation returned NULL, dereferenced"])
+            else bigSuccess d p (l1 ++ [s!"unode {c.node.toNat} {nid}"]) rest f id nid n sd pre
+          else bigSuccess d p l1 rest f id 0 n sd pre
+  | _, _, _, _, _ => (d, ["bad-op"])
+
+def modelBFree (d : DState) (fam id sepw : String) : DState × List String :=
+  match famOf fam, id.toNat?, sepWord 0 (some sepw) with
+  | some f, some i, some sep0 =>
+    match d.big.find? (·.id == i) with
+    | none => (d, ["misuse nonallocated", bigTotal d d.big])
+    | some b =>
+      let big := d.big.filter (·.id != i)
+      let chk : List String :=
+        if b.fam != f then ["misuse mismatch"] else if !b.guardOk then ["misuse corruption"]
+        else if forcedSep d.cfg sep0 && b.sep then [s!"unodefree {b.nodeId}"] else []
+      ({ d with big := big }, chk ++ [s!"ufree {i}", bigTotal d big])
+  | _, _, _ => (d, ["bad-op"])
 
 /-- the `mem_leak_operator_new*` function a `gnew` form ends up in (the `(file, int line)` overloads share the debug variants) -/
 def variantOfForm (v : String) : Option NewVariant :=
@@ -182,6 +299,9 @@ def modelStep (d : DState) (op : List String) (obs : List (List String)) : DStat
   | ["realloc", fam, old, size, seed] => modelRealloc d obs fam old size seed none
   | ["reallocx", fam, old, size, seed, sep] => modelRealloc d obs fam old size seed (some sep)
   | ["free", fam, id] => modelFree d fam id none
+  | ["balloc", fam, size, seed, sep] => modelBAlloc d obs fam size seed sep
+  | ["brealloc", fam, old, size, seed, sep] => modelBRealloc d obs fam old size seed sep
+  | ["bfree", fam, id, sep] => modelBFree d fam id sep
   | ["freex", fam, id, sep] => modelFree d fam id (some sep)
   | ["gcrashalloc", _] => (d, [])
   | ["gthreadsafe", _] => (d, [])
@@ -280,7 +400,7 @@ def modelStep (d : DState) (op : List String) (obs : List (List String)) : DStat
   | ["finish"] =>
     let s1 := freeAll c d.det
     let g1 := freeAll c d.glob
-    ({ d with det := s1, glob := g1, oom := false, nullnew := false },
+    ({ d with det := s1, glob := g1, oom := false, nullnew := false, big := [] },
      ["cleanup-misuse 0", s!"total {s1.tracked.length}",
       s!"gfreed {d.glob.tracked.length} {(g1.tracked.length : Int) - d.glob.tracked.length}", s!"failures {d.failures}"])
   | _ => (d, ["bad-op"])
@@ -294,7 +414,14 @@ structure SBlk where
   fam     : Nat
   glob    : Bool
 
+/-- a live block the harness looks at through its edges only: first and last 32 bytes hold the pattern of `seed` -/
+structure SBig where
+  id   : Nat
+  size : Nat
+  seed : Nat
+
 structure Shadow where
+  big     : List SBig := []
   guard   : Nat := 3
   node    : Nat := 64
   check   : Bool := true
@@ -372,6 +499,7 @@ def checkFailed (sh : Shadow) (obs : List (List String)) (what : String) (glob :
     throw s!"{what} returned NULL and keeps the old block tracked, but the platform released that block (realloc to 0 bytes frees it)"
   let fr := freedIds obs
   if sh.live.any (fun b => fr.contains b.id) then throw s!"{what} failed but released a live block"
+  if sh.big.any (fun b => fr.contains b.id || gone.contains b.id) then throw s!"{what} failed but released a live block"
   if glob then
     if deltaOf obs != some 0 then throw s!"{what} failed but the number of tracked blocks changed"
   else
@@ -502,6 +630,73 @@ def specStep (sh : Shadow) (o : Proto.Op) : Except String Shadow := do
       if ms != ["nonallocated"] then throw s!"free of a pointer that is not tracked: reports {ms}"
       checkFailed sh obs "free(stale)" false
       return sh
+  | ["balloc", fam, size, seed, sepw] =>
+    let some _ := famOf fam | throw "bad balloc"
+    let some n := size.toNat? | throw "bad balloc"
+    let some sd := seed.toNat? | throw "bad balloc"
+    if !ms.isEmpty then throw s!"alloc({n}) reported misuse {ms}"
+    let inline := sepw != "1" && sh.check
+    match retOf obs with
+    | .ptr id off =>
+      if overflows sh n inline then throw s!"alloc({n}): size overflows once bookkeeping is added, yet a block was returned"
+      checkBlock sh obs s!"alloc({n})" id off n inline 0 none
+      if sh.big.any (·.id == id) then throw s!"alloc({n}): returned block {id} is still live"
+      if !hasLine obs ["wrote-edges"] then throw s!"alloc({n}): first and last user bytes not written"
+      if totalOf obs != some (sh.total + 1) then throw s!"alloc({n}) succeeded but the tracked total did not grow by one"
+      return { sh with big := ⟨id, n, sd⟩ :: sh.big, total := sh.total + 1 }
+    | .missing => return sh
+    | .unknown => throw s!"alloc({n}): returned pointer is not inside a block the platform handed out"
+    | _ => checkFailed sh obs s!"alloc({n})" false; return sh
+  | ["brealloc", fam, old, size, seed, sepw] =>
+    let some _ := famOf fam | throw "bad brealloc"
+    let some oid := old.toNat? | throw "bad brealloc"
+    let some n := size.toNat? | throw "bad brealloc"
+    let some sd := seed.toNat? | throw "bad brealloc"
+    let inline := sepw != "1" && sh.check
+    let oldB := sh.big.find? (·.id == oid)
+    if oid != 0 && oldB.isNone then
+      if ms != ["nonallocated"] then throw s!"realloc of a pointer that is not tracked: reports {ms}"
+      if retOf obs != .null && retOf obs != .missing then throw "realloc of a pointer that is not tracked returned a block"
+      checkFailed sh obs "realloc(stale)" false
+      return sh
+    if !ms.isEmpty then throw s!"realloc({n}) of a live block reported misuse {ms}"
+    let oldSize := (oldB.map (·.size)).getD 0
+    let oldSeed := (oldB.map (·.seed)).getD 0
+    let keep := min oldSize n
+    match retOf obs with
+    | .ptr id off =>
+      if overflows sh n inline then throw s!"realloc({n}): size overflows once bookkeeping is added, yet a block was returned"
+      checkBlock sh obs s!"realloc({n})" id off n inline oid none
+      if sh.big.any (fun b => b.id == id && id != oid) then throw s!"realloc({n}): returned block {id} is still live"
+      -- realloc preserves the first min(old,new) bytes: their first 32 and (when the block grew) their last 32 are looked at
+      let hd := patRange oldSeed 0 (min keep 32)
+      if keep > 0 && !hasLine obs ["head", toString hd.length, Proto.hex hd] then
+        throw s!"realloc({oldSize} -> {n}) did not preserve the first {keep} bytes (damage within the first {hd.length})"
+      let tl := patRange oldSeed (oldSize - 32) oldSize
+      if oid != 0 && n ≥ oldSize && oldSize > 0 && !hasLine obs ["tail", toString tl.length, Proto.hex tl] then
+        throw s!"realloc({oldSize} -> {n}) did not preserve the first {keep} bytes (damage within the last {tl.length} of them)"
+      if !hasLine obs ["wrote-edges"] then throw s!"realloc({n}): first and last user bytes not written"
+      let want := if oid == 0 then sh.total + 1 else sh.total
+      if totalOf obs != some want then throw s!"realloc({n}) succeeded but the tracked total is not {want}"
+      return { sh with big := ⟨id, n, sd⟩ :: sh.big.filter (·.id != oid), total := want }
+    | .missing => return sh
+    | .unknown => throw s!"realloc({n}): returned pointer is not inside a block the platform handed out"
+    | _ => checkFailed sh obs s!"realloc({n})" false; return sh
+  | ["bfree", _, id, _] =>
+    let some i := id.toNat? | throw "bad bfree"
+    match sh.big.find? (·.id == i) with
+    | some b =>
+      if !ms.isEmpty then throw s!"free of live block {i} ({b.size} bytes) reported misuse {ms} (block no longer tracked or damaged)"
+      if ((obsNums obs "ufree").filter (· == [i])).length != 1 then
+        throw s!"free of live block {i}: the platform free was not called exactly once with the block's own pointer"
+      if sh.live.any (fun b => (freedIds obs).contains b.id) || sh.big.any (fun b => b.id != i && (freedIds obs).contains b.id) then
+        throw s!"free of live block {i} also released another live block"
+      if totalOf obs != some (sh.total - 1) then throw s!"free of live block {i}: tracked total did not shrink by one"
+      return { sh with big := sh.big.filter (·.id != i), total := sh.total - 1 }
+    | none =>
+      if ms != ["nonallocated"] then throw s!"free of a pointer that is not tracked: reports {ms}"
+      checkFailed sh obs "free(stale)" false
+      return sh
   | ["peek", id, _] | ["gpeek", id, _] =>
     let some i := id.toNat? | throw "bad peek"
     match sh.live.find? (fun b => b.id == i) with
@@ -567,7 +762,7 @@ def specStep (sh : Shadow) (o : Proto.Op) : Except String Shadow := do
     let k := (sh.live.filter (·.glob)).length
     if !hasLine obs ["gfreed", toString k, toString (-(k : Int))] then
       throw s!"releasing the {k} remaining live blocks of the global detector did not reduce its total by {k}"
-    return { sh with live := [], total := 0 }
+    return { sh with live := [], big := [], total := 0 }
   | _ => throw "bad-op"
 
 def specAll (ops : List Proto.Op) : Option String :=
